@@ -66,6 +66,7 @@ type FnExec struct {
 	tuples   map[ssa.Value][]Term
 	ptrs     map[ssa.Value]*Ptr
 	closures map[ssa.Value]*ssa.MakeClosure
+	extSeen  map[string]bool // pairs of byte strings for which the extensionality instance was stated
 	qbind    []string // binders of the spec quantifiers being evaluated (innermost last) and their type guards
 	qguard   []Term
 	cellIDs  map[*ssa.Alloc]int
@@ -613,6 +614,12 @@ func (fx *FnExec) enterLoop(st *State, li *loopInfo) {
 				// the compiler's own index of a range-over-slice loop: starts at -1, is only ever incremented, and a
 				// value other than -1 has passed the "index < len" test of an earlier iteration (len <= 2^48)
 				fx.sc.Assume(And(App(">=", SBool, v, IntLit(-1)), App("<", SBool, v, Term{"281474976710656", SInt})))
+				// ... more precisely it passed "index < n" with the loop's own bound n (computed before the loop)
+				if n := rangeBound(li, a); n != nil {
+					if nt, ok := fx.vals[n]; ok {
+						fx.sc.Assume(Or(Eq(v, IntLit(-1)), App("<", SBool, v, nt)))
+					}
+				}
 			}
 		}
 	}
@@ -1289,6 +1296,27 @@ func (fx *FnExec) declBytes() {
 	fx.sc.Declare("strlen", "(declare-fun strlen (Int) Int)")
 }
 
+// bseqExtensional states, for one pair of byte strings compared in a specification, the instance of "byte strings of
+// equal length that agree at every index are equal" (with a fresh witness index for the pair), and the axiom that ties
+// the elements of bseq(arr, off, n) to the array. Both are valid in the intended model (BSeq = finite byte sequences).
+func (fx *FnExec) bseqExtensional(a, b Term) {
+	fx.declBytes()
+	fx.sc.Declare("ax:bseq.at", "(assert (forall ((a!q (Array Int Int)) (o!q Int) (n!q Int) (i!q Int)) (! (=> (and (<= 0 i!q) (< i!q n!q)) (= (bseq.at (bseq a!q o!q n!q) i!q) (select a!q (+ o!q i!q)))) :pattern ((bseq.at (bseq a!q o!q n!q) i!q)))))")
+	fx.sc.Declare("ax:bseq.len", "(assert (forall ((a!q (Array Int Int)) (o!q Int) (n!q Int)) (! (=> (<= 0 n!q) (= (bseq.len (bseq a!q o!q n!q)) n!q)) :pattern ((bseq a!q o!q n!q)))))")
+	key := "bseqext:" + a.S + "|" + b.S
+	if fx.extSeen == nil {
+		fx.extSeen = map[string]bool{}
+	}
+	if fx.extSeen[key] {
+		return
+	}
+	fx.extSeen[key] = true
+	d := fx.sc.Fresh("bseqdiff", SInt)
+	la, lb := App("bseq.len", SInt, a), App("bseq.len", SInt, b)
+	fx.sc.Assume(Or(Eq(a, b), Not(Eq(la, lb)),
+		And(App("<=", SBool, TZero, d), App("<", SBool, d, la), Not(Eq(App("bseq.at", SInt, a, d), App("bseq.at", SInt, b, d))))))
+}
+
 // BytesOf returns the abstract content (a BSeq) of a []byte value in state st, with the ground
 // facts that tie it to its length.
 func (fx *FnExec) BytesOf(st *State, s Term) Term {
@@ -1572,4 +1600,33 @@ func (fx *FnExec) finish() {
 		}
 		fx.obls = append(fx.obls, o)
 	}
+}
+
+// rangeBound finds the bound n of the compiler-generated test "index+1 < n" of a range-over-slice loop whose index
+// cell is a; nil when the loop does not have that shape or n is computed inside the loop.
+func rangeBound(li *loopInfo, a *ssa.Alloc) ssa.Value {
+	for b := range li.blocks {
+		for _, in := range b.Instrs {
+			cmp, ok := in.(*ssa.BinOp)
+			if !ok || cmp.Op != token.LSS {
+				continue
+			}
+			add, ok := cmp.X.(*ssa.BinOp)
+			if !ok || add.Op != token.ADD {
+				continue
+			}
+			ld, ok := add.X.(*ssa.UnOp)
+			if !ok || ld.X != ssa.Value(a) {
+				continue
+			}
+			if c, ok := add.Y.(*ssa.Const); !ok || c.Int64() != 1 {
+				continue
+			}
+			if ni, ok := cmp.Y.(ssa.Instruction); ok && ni.Block() != nil && li.blocks[ni.Block()] {
+				return nil
+			}
+			return cmp.Y
+		}
+	}
+	return nil
 }
